@@ -8,6 +8,7 @@ from pyvc import logic as L
 from pyvc.logic import Node, Str, null, none_s
 from pyvc.values import *
 from pyvc.state import State
+from .roles import unique_local
 from pyvc.contracts import contract, Contract, Case, LoopSpec
 from .common import A, Imp
 
@@ -54,7 +55,7 @@ def match(cx, p, j):
 
 
 class InnerLoop(LoopSpec):
-    havoc_types = {'files': 'strlist'}
+    havoc_types = {'*list': 'strlist'}
 
     def ghost_vars(self, cx):
         return {'cnt': IA}
@@ -67,7 +68,8 @@ class InnerLoop(LoopSpec):
         j = lp.k
         cnt = lp.st.ghost['cnt']
         tot = lp.entry.ghost['tot']
-        files, files0 = lp.st.locals['files'], lp.entry.locals['files']
+        fname = unique_local(lp, SList)
+        files, files0 = lp.st.locals[fname], lp.entry.locals[fname]
         a, b, i = z3.Ints('a!in b!in i!in')
         return [('ghost.cnt_counts_matches', A(cnt[0] == 0,
                                                z3.ForAll([a], Imp(A(0 <= a, a < j), cnt[a + 1] == cnt[a] + z3.If(match(cx, k, a), 1, 0)), patterns=[cnt[a]]),
@@ -84,7 +86,7 @@ class InnerLoop(LoopSpec):
 
 
 class OuterLoop(LoopSpec):
-    havoc_types = {'files': 'strlist'}
+    havoc_types = {'*list': 'strlist'}
 
     def ghost_vars(self, cx):
         return {'tot': IA, 'cntp': IAA, 'cnt': IA}
@@ -93,7 +95,7 @@ class OuterLoop(LoopSpec):
         return {'tot': z3.K(L.I, z3.IntVal(0)), 'cntp': z3.K(L.I, z3.K(L.I, z3.IntVal(0))), 'cnt': z3.K(L.I, z3.IntVal(0))}
 
     def invariant(self, cx, lp):
-        return outer_facts(cx, lp.st.ghost, lp.st.locals['files'], lp.k)
+        return outer_facts(cx, lp.st.ghost, lp.st.locals[unique_local(lp, SList)], lp.k)
 
     def ghost_update(self, cx, lp):
         g = lp.st.ghost
